@@ -31,15 +31,17 @@ RULE = (
     "no bound on the number of deviations (explicit-state: states = (offered buffers, bytes on the wire, clock, fault budget)); "
     "timeouts {inf, 3.0, 0} x retry_interval {inf, 1.0} x environment {writable after 0.4 / 1.7 / never}; paths: send_all, "
     "send_all_from_iterable via sendmsg, via SC_IOV_MAX<=0 fallback, via no-sendmsg fallback, StreamEndpoint.send_packet, and the "
-    "asyncio adapter (send_all / send_all_from_iterable, <= 3 chunks quick, pipe capacities 1/3/64, peer draining or resetting at any loop iteration, then a second send on the same transport); "
+    "asyncio adapter (send_all / send_all_from_iterable, <= 3 chunks quick, pipe capacities 1/3/64, peer draining or resetting at any loop iteration, then a second send on the same transport); the blocking TLS socket (SSLStreamTransport, TLS 1.2/1.3, client/server) "
+    "sending one packet of 40000 / 100000 bytes (thorough also 300000) as one chunk or five chunks with empty ones over a real socketpair with the minimum send buffer, the peer "
+    "reading everything / 3000 bytes / nothing at every select() in which the library waits for writability (deviation bound 2 quick / 3 thorough), timeouts {inf, 1.0, 0} x retry {inf, 0.3}; "
     "distinct_nontrivial = distinct (config, final observation) pairs of executions with at least one non-default answer"
 )
 ASSUMPTIONS = [
     "the state key = offered buffers, bytes on the wire, virtual clock, fault budget AND every float local (remaining timeouts, deadlines, intervals) of every library frame on the call stack; validated by an unmerged run at deviation bound 1",
     "a send() of zero bytes returns 0 (POSIX); an infinite timeout with a peer that never reads again is not enumerated (blocking forever is then legitimate)",
-    "TLS send paths are checked under C08 (transparent stream) with the TLS rig",
+    "async TLS send paths are checked under C08 (transparent stream) with the TLS rig; the blocking TLS socket is driven here (props/c04_tls.py) over a real socketpair with the kernel-minimum send buffer",
 ]
-BOUNDS = {"quick": "<= 4 chunks of sizes {0,1,2,5}", "thorough": "<= 5 chunks of sizes {0,1,2,3,7}"}
+BOUNDS = {"quick": "<= 4 chunks of sizes {0,1,2,5}; TLS socket: deviation bound 2", "thorough": "<= 5 chunks of sizes {0,1,2,3,7}; TLS socket: deviation bound 3 (2 for 300000 bytes)"}
 
 CALL_HORIZON = 300
 
@@ -238,6 +240,9 @@ def jobs(tier: str) -> list[dict]:
         for cap in (1, 3, 64):
             for part in range(4):
                 out.append({"kind": "async", "path": path, "cap": cap, "part": part, "parts": 4, "tier": tier})
+    from . import c04_tls
+
+    out += c04_tls.jobs(tier)
     return out
 
 
@@ -454,6 +459,10 @@ def run_async_job(job: dict, res: JobResult) -> None:
 
 
 def run_job(job: dict) -> JobResult:
+    if job["kind"] == "tls":
+        from . import c04_tls
+
+        return c04_tls.run_job(job)
     res = JobResult()
     if job["kind"] == "sync":
         run_sync_job(job, res)
@@ -464,6 +473,10 @@ def run_job(job: dict) -> JobResult:
 
 def replay(doc: dict) -> tuple[bool, str]:
     rp = doc["replay"]
+    if rp.get("part") == "tls":
+        from . import c04_tls
+
+        return c04_tls.replay(doc)
     ctx = Ctx(rp["choices"])
     if rp["kind"] == "sync":
         obs = run_sync(ctx, rp["cfg"])
